@@ -8,7 +8,7 @@ PART = -1
 CONDS = ['x = 1', 'x = 1 and y = 2', 'x in (select y from u where z = 1 group by y)', 'a between 1 and 2', 'exists (select 1 from u where u.k = t.k)',
          "n like 'a%' or m is null"]
 FOLLOW = ['', 'group by a', 'order by a', 'limit 1', 'union select c from d where z = 3', 'except select 1', 'having a > 1', 'returning a', 'into t2',
-          'union all select 2', 'ORDER  BY a']
+          'union all select 2', 'ORDER  BY a', 'order\tby a', 'group\r\nby a', 'union\nall select 2']
 WRAP = ['{}', 'select * from ({}) s', 'insert into t2 {}', 'select k from t1 where k in ({}) order by k']
 KNOWN = set()
 
@@ -52,11 +52,11 @@ def where_why(ci, fi, wi):
 
 def where(ci: int, fi: int, wi: int) -> int:
     """
-    pre: 0 <= ci < 6 and 0 <= fi < 11 and 0 <= wi < 4
+    pre: 0 <= ci < 6 and 0 <= fi < 14 and 0 <= wi < 4
     pre: PART < 0 or wi == PART
     post: _ != 2
     """
-    return 2 if where_why(conc(ci, 5), conc(fi, 10), conc(wi, 3)) else 1
+    return 2 if where_why(conc(ci, 5), conc(fi, 13), conc(wi, 3)) else 1
 
 
 ITEMS = [['a', 'b'], ['a', 'b', 'c'], ['t.a', 'f(x)', '1'], ['a AS x', 'b y'], ["'s'", 'count(*)', 'c + 1'], ['a', 'case when b then 1 end', 'd']]
